@@ -265,7 +265,11 @@ func scribble(v reflect.Value, n *int, seen map[uintptr]bool, depth int) {
 		}
 		seen[p] = true
 		for _, k := range v.MapKeys() {
-			e := addressable(v.MapIndex(k))
+			mv := v.MapIndex(k)
+			if !mv.IsValid() {
+				continue // NaN key: not reachable by lookup
+			}
+			e := addressable(mv)
 			scribble(e, n, seen, depth+1)
 			v.SetMapIndex(k, e)
 			// key contents may point into shared memory as well
